@@ -148,7 +148,7 @@ VF_SECTION(constructs, 8, 8, 120) {
       "#0", "#255", "#-128", "#-1", "##256", "##65535", "##-32768", "###65536", "###4294967295", "###-2147483648",
       "####4294967296", "####18446744073709551615", "####-9223372036854775808", "####-1",
       "%1.5", "%-0.25", "%1e10", "%3.4028235e38", "%%1.5", "%%-2.667", "%%1e-3", "%%.5",
-      "\"a\\\"b\"", "\"\"", "\"\\n\\t\\r\\\\\\'\"", "\"/* ? $ #1 */\"", "'ab'", "'\\n\\''",
+      "\"a\\\"b\"", "\"\"", "\"\\n\\t\\r\\\\\\'\"", "\"/* ? $ #1 */\"", "'ab'", "'\\n\\''", "'\\r\\t\\\\'",
       "// c 12 \" ? $\n", "/* 12 ? $ \" */", "/**/"};
   const size_t NP = sizeof(POOL) / sizeof(POOL[0]);
   const size_t maxseq = r.thorough() ? 4 : 3;
